@@ -68,6 +68,10 @@ def template(draw):
     # either the template uses it and then gives every static clone a distinct `via` (nested: me-relative)
     # and rears nothing, or it does not use it at all
     use_m = draw(st.booleans())
+    if any(fr["tr"] and fr["tr"][0] == "markgate" for fr in body):
+        # a reared clone is a NEW framer with fresh marks each time it is reared, the long lived original it is compared
+        # with keeps the marks of its earlier entries: marker conditions are only compared for static clones
+        rear = None
     if use_m:
         rear = None
         for j, c in enumerate(clones):
